@@ -554,6 +554,8 @@ Example ex_name_octets :
 Proof. split; vm_compute; reflexivity. Qed.
 Example ex_name_utf8 : texts_utf8 ex_name = true.
 Proof. vm_compute. reflexivity. Qed.
+Example ex_name_hyps : name_ok ex_name = true /\ texts_utf8 ex_name = true.
+Proof. exact (conj ex_name_ok ex_name_utf8). Qed.
 Example ex_name_text :
   name_text (name_content ex_name) = Some (bs "CN=Doe\, Jane+1.2.3.4.5=a\+b+O=" ++ [195; 169; 240; 159; 152; 128] ++ bs ",C=US").
 Proof. vm_compute. reflexivity. Qed.
